@@ -10,10 +10,13 @@
 //                      (skipped when t has an open watch)
 //     deliver(t)       hand the next pending change to t's open watch (skipped when none)
 //     wev(t,kind)      inject error / expired / closed / bookmark into t's open watch
+// After every decision the driver waits until the syncer is quiescent: every watcherCache goroutine parked
+// at the List/Watch gate or on its watch channel and the syncer's main loop parked receiving from the
+// results channel (observed in a runtime.Stack snapshot; all of these are states only the driver can end,
+// so the observation cannot be stale).  This makes the recorded order reproducible.
 // After the script: every pending call is answered OK and every pending change delivered until each
-// type has an open, drained watch; a sentinel key is written last and the driver waits (bounded) until
-// it has come out of the callbacks for every type; then "quiesce" is logged.  A wait that times out is
-// a harness error (exit 2), never a verdict.
+// type has an open, drained watch; a sentinel key is written and delivered last; once the syncer is
+// quiescent again "quiesce" is logged.  A wait that times out is a harness error (exit 2), never a verdict.
 //
 // One log, ordered by the log's mutex: a List result is logged inside List() before it returns, a
 // callback at its entry, so the log order is consistent with causality (no wall-clock anywhere).
@@ -27,8 +30,11 @@ import (
 	"io"
 	"math/rand"
 	"os"
+	"regexp"
+	"runtime"
 	"sort"
 	"strconv"
+	"strings"
 	"sync"
 	"syscall"
 	"time"
@@ -270,7 +276,10 @@ func (c *callbacks) OnUpdates(us []api.Update) {
 	}
 	c.log.Emit("cb_upd", map[string]any{"kvs": kvs})
 	for _, g := range got {
-		c.seen <- g
+		select {
+		case c.seen <- g:
+		default:
+		}
 	}
 }
 
@@ -317,6 +326,7 @@ func (d *drv) begin(t int, keys []string, rt string, sd map[string]bool) {
 	}
 	d.s = watchersyncer.New(d.f, rts, d.cb, watchersyncer.WithWatchRetryTimeout(to))
 	d.s.Start()
+	d.settle()
 }
 
 func (d *drv) mutate(t, k string, del bool) {
@@ -468,6 +478,74 @@ func (d *drv) wev(t, kind string) bool {
 	return true
 }
 
+var goroutineHdr = regexp.MustCompile(`^goroutine \d+ \[([^\],]*)`)
+
+// quiescent reports whether every goroutine of the syncer under test is parked in a state only the driver
+// can end: each watcherCache at the List/Watch gate or reading its (unbuffered) watch channel, the syncer's
+// main loop receiving from the (therefore empty) results channel.  A goroutine that is runnable, sleeping
+// on a retry timer or inside a callback makes the answer "not yet".
+func quiescent(ncaches int) bool {
+	buf := make([]byte, 1<<17)
+	for {
+		n := runtime.Stack(buf, true)
+		if n < len(buf) {
+			buf = buf[:n]
+			break
+		}
+		buf = make([]byte, 2*len(buf))
+	}
+	caches, mains := 0, 0
+	for _, blk := range strings.Split(string(buf), "\n\n") {
+		isCache := strings.Contains(blk, "watchersyncer.(*watcherCache).run(")
+		isMain := strings.Contains(blk, "watchersyncer.(*watcherSyncer).run(") && !isCache
+		if !isCache && !isMain {
+			continue
+		}
+		lines := strings.SplitN(blk, "\n", 3)
+		if len(lines) < 2 {
+			return false
+		}
+		m := goroutineHdr.FindStringSubmatch(lines[0])
+		if m == nil {
+			return false
+		}
+		state, top := m[1], lines[1]
+		if isMain {
+			if state != "chan receive" || !strings.Contains(top, "(*watcherSyncer).run") {
+				return false
+			}
+			mains++
+			continue
+		}
+		switch {
+		case state == "chan send" && strings.HasPrefix(top, "main.(*fake).ask"):
+		case state == "select" && strings.HasPrefix(top, "main.(*fake).ask"):
+		case state == "select" && strings.Contains(top, "(*watcherCache).loopReadingFromWatcher"):
+		default:
+			return false
+		}
+		caches++
+	}
+	return caches == ncaches && mains == 1
+}
+
+func (d *drv) settle() {
+	deadline := time.Now().Add(bound)
+	for i := 0; ; i++ {
+		if quiescent(len(d.ts)) {
+			return
+		}
+		if time.Now().After(deadline) {
+			fatal("timeout: the syncer did not become quiescent within %v (trace %d)", bound, d.log.T)
+		}
+		if i < 20 {
+			runtime.Gosched()
+		} else {
+			time.Sleep(100 * time.Microsecond)
+		}
+	}
+}
+
 func (d *drv) step(op map[string]any) {
 	t := tracelog.Str(op["t"])
 	switch tracelog.Str(op["op"]) {
@@ -481,9 +559,11 @@ func (d *drv) step(op map[string]any) {
 	case "wev":
 		d.wev(t, tracelog.Str(op["kind"]))
 	case "cfg", "end":
+		return
 	default:
 		fatal("unknown op %v", op["op"])
 	}
+	d.settle()
 }
 
 // heal: answer everything OK and deliver everything until every type has an open, drained watch; then the sentinel
@@ -503,33 +583,24 @@ func (d *drv) finish() {
 			}
 			if d.openWatch(t) != nil {
 				for d.deliver(t) {
+					d.settle()
 				}
 				break
 			}
 			d.reply(t, "ok")
+			d.settle()
 		}
 	}
-	need := map[string]int{}
 	for _, t := range d.ts {
 		d.mutate(t, sentinel, false)
-		d.f.mu.Lock()
-		need[t] = d.f.types[t].nrev
-		d.f.mu.Unlock()
 		if !d.deliver(t) {
 			fatal("sentinel could not be delivered for %s", t)
 		}
+		d.settle()
 	}
-	deadline := time.After(bound)
-	for len(need) > 0 {
-		select {
-		case g := <-d.cb.seen:
-			if need[g.t] == g.rev {
-				delete(need, g.t)
-			}
-		case <-deadline:
-			fatal("timeout: sentinel did not come out of the callbacks within %v (trace %d)", bound, d.log.T)
-		}
-	}
+	// every goroutine of the syncer is parked on something only the driver can provide: nothing more will
+	// come out of the callbacks
+	d.settle()
 	d.cb.mu.Lock()
 	d.log.Emit("quiesce", nil)
 	d.cb.done = true
@@ -579,6 +650,7 @@ func (d *drv) random(t int, rnd *rand.Rand) {
 				d.deliver(ty)
 			}
 		}
+		d.settle()
 	}
 	d.finish()
 }
